@@ -46,6 +46,7 @@ func semBatchSeq(ctx *core.Ctx, idx int, res *core.Result, cs []*gen.Change, src
 	}
 	for pi, runs := range paths {
 		for i, src := range srcs {
+			run := runs[i]
 			v := judgeSeq(pats, src, runs[i], addedImports(cs...)...)
 			res.Evals++
 			res.Ob("runs:"+names[pi], 1)
@@ -69,6 +70,19 @@ func semBatchSeq(ctx *core.Ctx, idx int, res *core.Result, cs []*gen.Change, src
 			}
 			if v.Stats.Sites > 0 || ex != "" {
 				res.Sig(skel, v.Stats.SiteKinds, ex)
+			}
+			if v.Class == "engine-error" && strings.Contains(src, gen.RelayoutComment) && strings.Contains(run.Err, ": ") && !strings.HasPrefix(run.Err, "patch rejected") {
+				// Known finding (DESIGN section 6): in a site that spans several lines, a comment that trails replaced
+				// code stays behind on its old line; go/printer breaks the line in front of it and the result does not
+				// parse, so the file is rejected instead of rewritten. Decidable signature: the error is a parse error
+				// of the output, and the same source without the relayout marker comments (only those) is rewritten
+				// exactly as the reference expects.
+				src2 := strings.ReplaceAll(src, gen.RelayoutComment, "")
+				if r2 := applyAPI(pt, []string{src2}); len(r2) == 1 {
+					if v2 := judgeSeq(pats, src2, r2[0], addedImports(cs...)...); v2.Class == "" && v2.Inconcl == "" && v2.Stats.Sites > 0 {
+						v.Class = "comment-after-replaced-code-breaks-multi-line-rewrite"
+					}
+				}
 			}
 			if v.Class != "" {
 				res.Violate(prop+"/"+v.Class, fmt.Sprintf("[%s path, schema %s] %s", names[pi], c.Schema, v.Detail), replayFiles(pt, src, v.Out))
